@@ -29,7 +29,7 @@ package dig
 //@   loop for curr.parentScope != nil #1: invariant[C08:root-walk-stays-on-the-chain] exists k int :: 0 <= k && k < s.nanc && curr == s.anc[k]
 
 //@ func (s0 *Scope) ancestors() (r)
-//@   allocates
+//@   allocates plain
 //@   ensures[C08:walk-nil] s0 == nil ==> len(r) == 0
 //@   ensures[C08:walk-is-the-ancestor-chain] s0 != nil ==> len(r) == s0.nanc && (forall i int :: 0 <= i && i < len(r) ==> r[i] == s0.anc[i])
 //@   ensures[C08:walk-fresh] cap(r) == 0 || fresh(r)
@@ -197,12 +197,6 @@ package dig
 //@   site call (dig.param).Build #1: assert[C08:params-built-in-given-scope] $arg0 == c
 //@   site call (dig.param).Build #1: assert[C01:params-built-in-order] $recv == pl.Params[$i]
 
-//@ func shallowCheckDependencies(c, pl) (err)
-//@   trusted
-//@   requires c != nil
-//@   allocates
-//@   ensures err == nil || is(err, errMissingTypes)
-
 //@ func (n *constructorNode) Call(c) (err)
 //@   ensures[C03:knot-mono] knotMono()
 //@   onpanic[C03:knot-mono-panic] knotMono()
@@ -352,7 +346,7 @@ package dig
 //@ func (s *Scope) storesToRoot() (r)
 //@   loop range scopes #1: complete[C08:every-ancestor-becomes-a-store]
 //@   requires s != nil
-//@   allocates
+//@   allocates plain
 //@   ensures[C08:stores-are-the-ancestor-chain] len(r) == s.nanc && (forall i int :: 0 <= i && i < len(r) ==> isScope(r[i]) && scopeOf(r[i]) == s.anc[i])
 //@   ensures fresh(r)
 //@   loop range scopes #1: invariant[C08:stores-copy] forall j int :: 0 <= j && j < $i ==> isScope(stores[j]) && scopeOf(stores[j]) == s.anc[j]
@@ -530,13 +524,13 @@ package dig
 //@ func newErrMissingTypes(c, k) (e)
 //@   trusted
 //@   requires c != nil && k.t != nil
-//@   allocates
+//@   allocates plain
 //@   ensures[C04:missing-type-names-the-key] len(e) == 1 && e[0].Key == k && fresh(e)
 
 //@ func (s *Scope) getProviders(k) (r)
 //@   loop range nodes #1: complete[C09:every-provider-returned]
 //@   requires s != nil
-//@   allocates
+//@   allocates plain
 //@   ensures[C09:providers-of-exactly-this-key] len(r) == len(s.providers[k]) && (forall i int :: 0 <= i && i < len(r) ==> r[i] == s.providers[k][i])
 //@   ensures fresh(r) || len(r) == 0
 //@   loop range nodes #1: invariant[C09:providers-copied] forall j int :: 0 <= j && j < $i ==> providers[j] == s.providers[k][j]
@@ -1362,3 +1356,40 @@ package dig
 //@   site call dig.shallowCheckDependencies #1: assert[C04:direct-dependencies-checked-in-the-invoking-scope,C08:direct-dependencies-checked-in-the-invoking-scope] isScope($arg0) && scopeOf($arg0) == s && $arg1 == ret(newParamList_1, 0)
 //@   site call dig.newParamList #1: assert[C15:parameters-parsed-from-the-functions-type] $arg0 == typeOf(function) && isScope($arg1) && scopeOf($arg1) == s
 //@   site call graph.IsAcyclic #1: assert[C05:the-invoking-scopes-graph-is-checked] is($arg0, ptr(graphHolder)) && as($arg0, ptr(graphHolder)) == s.gh
+
+// ---------------------------------------------------------------------------
+// missing direct dependencies (C04, C17)
+
+//@ func (s *Scope) getAllProviders(k) (r)
+//@   requires s != nil
+//@   allocates plain
+//@   ensures[C08:providers-collected-from-the-scope-and-its-ancestors,C04:providers-collected-from-the-scope-and-its-ancestors] (len(r) == 0) == (forall i int :: 0 <= i && i < s.nanc ==> len(s.anc[i].providers[k]) == 0)
+//@   loop range allScopes #1: complete[C08:every-ancestor-asked-for-providers]
+//@   loop range allScopes #1: invariant[C08:providers-so-far] (len(providers) == 0) == (forall i int :: 0 <= i && i < $i ==> len(s.anc[i].providers[k]) == 0)
+//@   loop range allScopes #1: invariant len(allScopes) == s.nanc && (forall i int :: 0 <= i && i < len(allScopes) ==> allScopes[i] == s.anc[i]) && (cap(providers) == 0 || fresh(providers))
+
+// a required single dependency that nothing visible can satisfy
+//@ pure func needy(S *Scope, p paramSingle) Bool = !p.Optional && (forall i int :: 0 <= i && i < S.nanc ==> len(S.anc[i].providers[vkey(p.Type, p.Name)]) == 0)
+//@     && !(vkey(p.Type, p.Name) in S.decoratedValues)
+
+//@ func findMissingDependencies(c, params) (missing)
+//@   requires isScope(c) && (forall j int :: 0 <= j && j < len(params) ==> params[j] != nil)
+//@   allocates plain
+//@   ensures[C04:an-unsatisfiable-required-dependency-is-reported] (exists j int :: 0 <= j && j < len(params) && is(params[j], paramSingle) && needy(scopeOf(c), as(params[j], paramSingle))) ==> len(missing) > 0
+//@   ensures[C04:satisfiable-singles-are-not-reported,C17:satisfiable-singles-are-not-reported] (forall j int :: 0 <= j && j < len(params) ==> !is(params[j], paramObject) && !(is(params[j], paramSingle) && needy(scopeOf(c), as(params[j], paramSingle)))) ==> len(missing) == 0
+//@   loop range params #1: complete[C04:every-parameter-examined]
+//@   loop range params #1: invariant[C04:reported-so-far] (exists j int :: 0 <= j && j < $i && is(params[j], paramSingle) && needy(scopeOf(c), as(params[j], paramSingle))) ==> len(missingDeps) > 0
+//@   loop range params #1: invariant[C04:not-reported-so-far] (forall j int :: 0 <= j && j < $i ==> !is(params[j], paramObject) && !(is(params[j], paramSingle) && needy(scopeOf(c), as(params[j], paramSingle)))) ==> len(missingDeps) == 0
+//@   loop range p.Fields #1: invariant[C04:nested-reports-only-add] cap(missingDeps) == 0 || fresh(missingDeps)
+//@   loop range params #1: invariant cap(missingDeps) == 0 || fresh(missingDeps)
+//@   ensures fresh(missing) || cap(missing) == 0
+//@   site call dig.findMissingDependencies #1: assert[C04:nested-parameters-examined-in-the-same-scope,C15:nested-parameters-examined-in-the-same-scope] $arg0 == c
+
+//@ func shallowCheckDependencies(c, pl) (err)
+//@   requires isScope(c) && (forall j int :: 0 <= j && j < len(pl.Params) ==> pl.Params[j] != nil)
+//@   allocates plain
+//@   ensures[C04:error-exactly-when-something-is-missing] (err == nil) == (len(ret(findMissingDependencies_1, 0)) == 0)
+//@   ensures[C04:missing-dependencies-are-a-missing-types-error,C13:missing-dependencies-are-a-missing-types-error] err != nil ==> is(err, errMissingTypes)
+//@   loop range missingDeps #1: complete[C04:every-missing-dependency-listed]
+//@   loop range missingDeps #1: invariant[C04:one-entry-per-missing-dependency] len(err) == $i && (cap(err) == 0 || fresh(err))
+//@   site call dig.findMissingDependencies #1: assert[C04:the-constructors-own-parameters-are-checked,C08:the-constructors-own-parameters-are-checked] $arg0 == c && $arg1 == pl.Params
